@@ -192,6 +192,27 @@ Definition resetview_fmt := FSeq pk33 sig64.
 Definition respinactive_fmt := fseq [H256; pk33; sig64].
 Definition dposaddr_fmt := FSeq str U16.
 Definition dposgetblocks_fmt := FSeq U32 U32.
+(* msg.FilterLoad: filter, hash function count (<= MaxFilterLoadHashFuncs = 50), tweak, flags, optional tx types *)
+Definition filterload_fmt :=
+  FSeq (FVarBytes 36000) (FTag 4 false (FCaseGe 0 51 FFail (fseq [U32; U8; FTailU8List]))).
+(* dpos msg.ConsensusStatus: a failure to read the first count is swallowed (return nil) *)
+Definition consensusstatus_fmt :=
+  fseq [U32; U32; U64;
+        FSwallowHead [0; 0; 0; 0]
+          (fseq [list_var 96 vote_fmt; list_var 96 vote_fmt; list_var 104 proposal_fmt; list_var 96 vote_fmt])].
+(* dpos msg.Version under the two values of the process-global payload version *)
+Definition dposversion_v1_fmt := fseq [FFix 33; FFix 16; FFix 16; U16; FTimeMs].
+Definition dposversion_v2_fmt := fseq [U32; FFix 33; FFix 16; FFix 16; U16; FTimeMs; str].
+
+(* ---- small decoders used by storage / checkpoints *)
+Definition dposheader_fmt := FSeq header_fmt (FTag 1 true (FCase 0 0 FUnit confirm_fmt)).   (* types.DPOSHeader *)
+Definition outpoint_fmt := FSeq H256 U16.
+Definition utxo_fmt := fseq [H256; U16; U64].
+Definition outputinfo_fmt := FSeq H168 U64.
+Definition nftinfo_fmt := fseq [H256; H256; H256].
+Definition crcproposalinfo_fmt :=
+  fseq [U16; str; pk33; H256; int_list 16 budget_fmt; H168; H256; int_list 16 str; int_list 16 str; H168;
+        U64; U32; H168; pk33; pk33; H168; H168; sidechaininfo_fmt; H256].
 
 (* ---- registry: id -> descriptor (ids shared with the Go harness) *)
 Definition fmt_of (id : N) : fmt :=
@@ -200,6 +221,11 @@ Definition fmt_of (id : N) : fmt :=
   | 6 => dposblock_fmt | 7 => confirm_fmt | 8 => proposal_fmt | 9 => vote_fmt
   | 10 => block_fmt (* Block.DeserializeTxLoc *)
   | 11 => txu_fmt   (* GetTransactionByBytes + DeserializeUnsigned *)
+  | 12 => dposheader_fmt
+  | 23 => H168 | 24 => U64 | 25 => FFix 20     (* common.Uint168, Fixed64, Uint160 *)
+  | 36 => outpoint_fmt | 37 => utxo_fmt | 38 => outputinfo_fmt
+  | 39 => crcproposalinfo_fmt | 40 => nftinfo_fmt
+  | 317 => FUnit                               (* msg.empty (verack, getaddr, mempool, filterclear) *)
   | 20 => FVarUint            (* common.ReadVarUint / WriteVarUint directly *)
   | 21 => FVarBytes 33        (* common.ReadVarBytes(r, 33, _) / WriteVarBytes directly *)
   | 22 => FVarString          (* common.ReadVarString / WriteVarString directly *)
@@ -223,6 +249,9 @@ Definition fmt_of (id : N) : fmt :=
   | 415 => payload_fmt 15 0                    (* dpos IllegalVotes *)
   | 416 => payload_fmt 17 0                    (* dpos SidechainIllegalData *)
   | 417 => proposal_fmt | 418 => vote_fmt      (* dpos Proposal, Vote *)
+  | 306 => filterload_fmt                      (* msg.FilterLoad *)
+  | 400 | 421 => consensusstatus_fmt           (* dpos ConsensusStatus, ResponseConsensus *)
+  | 419 => dposversion_v1_fmt | 420 => dposversion_v2_fmt
   | _ =>
     if (100 <=? id) && (id <? 250) then payload_fmt (id - 100) 0      (* payload of tx type id-100; ctx = [version] *)
     else if (250 <=? id) && (id <? 260) then outpayload_fmt (id - 250)
@@ -230,9 +259,9 @@ Definition fmt_of (id : N) : fmt :=
   end.
 
 Definition format_ids : list N :=
-  [1; 2; 3; 4; 5; 6; 7; 8; 9; 10; 11; 20; 21; 22; 30; 31; 32; 33; 34; 35;
+  [1; 2; 3; 4; 5; 6; 7; 8; 9; 10; 11; 12; 20; 21; 22; 23; 24; 25; 30; 31; 32; 33; 34; 35; 36; 37; 38; 39; 40; 317;
    300; 301; 302; 303; 304; 305; 307; 308; 309; 310; 311; 312; 313; 314; 315;
-   401; 402; 403; 404; 405; 406; 407; 408; 409; 410; 411; 412; 413; 414; 415; 416; 417; 418]
+   306; 400; 401; 402; 403; 404; 405; 406; 407; 408; 409; 410; 411; 412; 413; 414; 415; 416; 417; 418; 419; 420; 421]
   ++ map (fun t => 100 + t) tx_types ++ map (fun t => 250 + t) out_types.
 
 Definition all_formats : list fmt := map fmt_of format_ids.
